@@ -1294,22 +1294,12 @@ Qed.
 Lemma anchors_pi_npi_fst c : map fst (anchors 2 c) = map fst (anchors (-2) c).
 Proof. rewrite anchors_pi_npi. apply map_flipa_fst. Qed.
 
-Fixpoint wf_ancb (anc : list (nat * Z)) : bool :=
-  match anc with
-  | (a0, v0) :: (((a1, v1) :: _) as t) =>
-      (a0 <? a1) && ((-2 <=? v0)%Z && (v0 <=? 1)%Z) &&
-      ((v0 <? v1)%Z || ((v1 =? -2)%Z && (0 <=? v0)%Z)) && wf_ancb t
-  | [(a0, v0)] => (-2 <=? v0)%Z && (v0 <=? 1)%Z
-  | [] => true
-  end.
+(* wf_ancb / wf_cpsb are defined in Model/Phase.v (the correspondence runner evaluates them on every case) *)
 Definition first_gapb (anc : list (nat * Z)) : bool :=
   match anc with
   | (a0, _) :: (a1, v1) :: _ => negb (v1 =? -2)%Z || (a0 + 2 <=? a1)
   | _ => true
   end.
-Definition wf_cpsb (c : cps) : bool :=
-  wf_ancb (anchors (-2) c) && (2 <=? length (anchors (-2) c)).
-
 Lemma wf_ancb_sound anc : wf_ancb anc = true -> wf_anc anc.
 Proof.
   induction anc as [|[a0 v0] t IH]; [intros _; exact I|].
@@ -1364,4 +1354,303 @@ Example phase_nogap :
 Proof.
   split; [|split; vm_compute; reflexivity].
   vm_compute. intro H. specialize (H eq_refl). lia.
+Qed.
+(* ------------------------------------------------------------------------------------------ *)
+(* The class of inputs C17 quantifies over (harness/props/c17.py: out_of_domain) implies the
+   precondition wf_cps of the theorems above. *)
+
+Definition is_ext (c : cps) (i : nat) : bool := mem i (c_peaks c) || mem i (c_troughs c).
+(* a supplied midpoint that does not coincide with an extremum *)
+Definition is_rise (c : cps) (i : nat) : bool := omem i (c_rises c) && negb (is_ext c i).
+Definition is_decay (c : cps) (i : nat) : bool := omem i (c_decays c) && negb (is_ext c i).
+Definition no_ext_between (c : cps) (a b : nat) : Prop := forall k, a < k < b -> is_ext c k = false.
+
+Record cps_domain (c : cps) : Prop := {
+  (* at least one peak and one trough inside the array, never on the same sample *)
+  dom_peak : exists p, p < c_n c /\ mem p (c_peaks c) = true;
+  dom_trough : exists t, t < c_n c /\ mem t (c_troughs c) = true;
+  dom_disjoint : forall i, mem i (c_peaks c) = true -> mem i (c_troughs c) = true -> False;
+  (* peaks and troughs alternate *)
+  dom_alt_peaks : forall i j, i < j -> mem i (c_peaks c) = true -> mem j (c_peaks c) = true ->
+    exists k, i < k < j /\ mem k (c_troughs c) = true;
+  dom_alt_troughs : forall i j, i < j -> mem i (c_troughs c) = true -> mem j (c_troughs c) = true ->
+    exists k, i < k < j /\ mem k (c_peaks c) = true;
+  (* a rise midpoint lies on a rising flank: the nearest extremum before it is not a peak, the nearest after it is
+     not a trough; a decay midpoint mirrored *)
+  dom_rise_flank : forall m, is_rise c m = true ->
+    (forall e, e < m -> mem e (c_peaks c) = true -> ~ no_ext_between c e m) /\
+    (forall e, m < e -> mem e (c_troughs c) = true -> ~ no_ext_between c m e);
+  dom_decay_flank : forall m, is_decay c m = true ->
+    (forall e, e < m -> mem e (c_troughs c) = true -> ~ no_ext_between c e m) /\
+    (forall e, m < e -> mem e (c_peaks c) = true -> ~ no_ext_between c m e);
+  (* at most one midpoint of a kind per flank *)
+  dom_one_rise : forall i j, i < j -> is_rise c i = true -> is_rise c j = true ->
+    exists k, i < k < j /\ is_ext c k = true;
+  dom_one_decay : forall i j, i < j -> is_decay c i = true -> is_decay c j = true ->
+    exists k, i < k < j /\ is_ext c k = true
+}.
+
+
+(* --- auxiliary lemmas for cps_domain_wf --- *)
+
+Lemma mem_true_iff i l : mem i l = true <-> In i l.
+Proof.
+  unfold mem. rewrite existsb_exists. split.
+  - intros [x [Hin Heq]]. apply Nat.eqb_eq in Heq. now subst x.
+  - intro Hin. exists i. split; [assumption|apply Nat.eqb_refl].
+Qed.
+
+Lemma is_ext_peak c i : mem i (c_peaks c) = true -> is_ext c i = true.
+Proof. intro H. unfold is_ext. now rewrite H. Qed.
+
+Lemma is_ext_trough c i : mem i (c_troughs c) = true -> is_ext c i = true.
+Proof. intro H. unfold is_ext. rewrite H. apply orb_true_r. Qed.
+
+Lemma is_ext_inv c i : is_ext c i = true -> mem i (c_peaks c) = true \/ mem i (c_troughs c) = true.
+Proof. unfold is_ext. intro H. now apply orb_true_iff in H. Qed.
+
+(* what an anchor value of the -pi series says about the sample *)
+Lemma anchor_some_cases c i v : anchor (-2) c i = Some v ->
+  (v = (-2)%Z /\ mem i (c_troughs c) = true) \/
+  (v = 0%Z /\ mem i (c_troughs c) = false /\ mem i (c_peaks c) = true) \/
+  (v = 1%Z /\ is_ext c i = false /\ is_decay c i = true) \/
+  (v = (-1)%Z /\ is_ext c i = false /\ is_rise c i = true).
+Proof.
+  unfold anchor, is_decay, is_rise, is_ext. intro H.
+  destruct (mem i (c_troughs c)); [inversion H; auto|].
+  destruct (mem i (c_peaks c)); [inversion H; auto|].
+  destruct (omem i (c_decays c)); [inversion H; right; right; left; cbn; auto|].
+  destruct (omem i (c_rises c)); [inversion H; right; right; right; cbn; auto|discriminate].
+Qed.
+
+Lemma anchor_none_inv tv c i : anchor tv c i = None ->
+  is_ext c i = false /\ is_rise c i = false /\ is_decay c i = false.
+Proof.
+  unfold anchor, is_decay, is_rise, is_ext. intro H.
+  destruct (mem i (c_troughs c)); [discriminate|].
+  destruct (mem i (c_peaks c)); [discriminate|].
+  destruct (omem i (c_decays c)); [discriminate|].
+  destruct (omem i (c_rises c)); [discriminate|]. cbn. auto.
+Qed.
+
+(* in a sorted list nothing lies strictly between two consecutive entries *)
+Lemma sorted_adjacent_gap (pre post : list (nat * Z)) x y :
+  sorted_anc (pre ++ x :: y :: post) ->
+  fst x < fst y /\ forall z, In z (pre ++ x :: y :: post) -> ~ (fst x < fst z < fst y).
+Proof.
+  induction pre as [|p pre IH]; cbn [app]; intro Hs.
+  - assert (Hxy : fst x < fst y) by (apply (sorted_head_lt x (y :: post)); [assumption|now left]).
+    split; [assumption|]. intros z [Hz|[Hz|Hz]]; [subst z; lia|subst z; lia|].
+    apply sorted_tail in Hs. pose proof (sorted_head_lt y post z Hs Hz) as Hyz. lia.
+  - destruct (IH (sorted_tail _ _ Hs)) as [Hxy Hgap]. split; [assumption|].
+    intros z [Hz|Hz]; [|now apply Hgap]. subst z.
+    assert (Hpx : fst p < fst x).
+    { apply (sorted_head_lt p (pre ++ x :: y :: post)); [assumption|].
+      apply in_or_app. right. now left. }
+    lia.
+Qed.
+
+Lemma anchors_adjacent_gap tv c a0 v0 a1 v1 :
+  adjacent (a0, v0) (a1, v1) (anchors tv c) ->
+  a0 < a1 /\ a1 < c_n c /\ anchor tv c a0 = Some v0 /\ anchor tv c a1 = Some v1 /\
+  forall k, a0 < k < a1 -> anchor tv c k = None.
+Proof.
+  intro Hadj. destruct (adjacent_In _ _ _ Hadj) as [Hin0 Hin1].
+  apply anchors_In in Hin0. apply anchors_In in Hin1.
+  destruct Hin0 as [Hn0 Ha0]. destruct Hin1 as [Hn1 Ha1].
+  destruct Hadj as [pre [post Hl]].
+  pose proof (anchors_sorted tv c) as Hs. rewrite Hl in Hs.
+  destruct (sorted_adjacent_gap _ _ _ _ Hs) as [Hlt Hgap]. cbn [fst] in Hlt.
+  split; [assumption|]. split; [assumption|]. split; [assumption|]. split; [assumption|].
+  intros k Hk. destruct (anchor tv c k) as [w|] eqn:E; [|reflexivity]. exfalso.
+  apply (Hgap (k, w)); [|cbn [fst]; lia].
+  rewrite <- Hl. apply anchors_In. split; [lia|assumption].
+Qed.
+
+(* wf_anc from a condition on consecutive pairs *)
+Lemma wf_anc_of_adjacent anc : sorted_anc anc ->
+  (forall a v, In (a, v) anc -> (-2 <= v <= 1)%Z) ->
+  (forall a0 v0 a1 v1, adjacent (a0, v0) (a1, v1) anc -> (v0 < v1)%Z \/ (v1 = -2 /\ 0 <= v0)%Z) ->
+  wf_anc anc.
+Proof.
+  induction anc as [|[a0 v0] t IH]; intros Hs Hr Hadj; [exact I|].
+  destruct t as [|[a1 v1] t'].
+  - cbn [wf_anc]. apply (Hr a0). now left.
+  - cbn [wf_anc]. split.
+    + apply (sorted_head_lt (a0, v0) ((a1, v1) :: t') (a1, v1)); [assumption|now left].
+    + split; [apply (Hr a0); now left|]. split.
+      * apply (Hadj a0 v0 a1 v1). exists [], t'. reflexivity.
+      * apply IH.
+        -- now apply sorted_tail in Hs.
+        -- intros a v Hin. apply (Hr a). now right.
+        -- intros b0 w0 b1 w1 Hb. apply (Hadj b0 w0 b1 w1). now apply adjacent_cons.
+Qed.
+
+(* nearest extremum before / after a sample *)
+Lemma nearest_ext_before c : forall m, (exists e, e < m /\ is_ext c e = true) ->
+  exists e, e < m /\ is_ext c e = true /\ no_ext_between c e m.
+Proof.
+  induction m as [|m IH]; intros [e [He Hx]]; [lia|].
+  destruct (is_ext c m) eqn:E.
+  - exists m. split; [lia|]. split; [assumption|]. intros k Hk. lia.
+  - assert (Hem : e < m).
+    { destruct (Nat.eq_dec e m) as [Heq|Hne]; [subst e; congruence|lia]. }
+    destruct (IH (ex_intro _ e (conj Hem Hx))) as [e' [He1 [He2 He3]]].
+    exists e'. split; [lia|]. split; [assumption|].
+    intros k Hk. destruct (Nat.eq_dec k m) as [Heq|Hne]; [now subst k|]. apply He3. lia.
+Qed.
+
+Lemma nearest_ext_after_aux c : forall d m, is_ext c (m + S d) = true ->
+  exists e, m < e /\ is_ext c e = true /\ no_ext_between c m e.
+Proof.
+  induction d as [|d IH]; intros m He.
+  - exists (m + 1). split; [lia|]. split; [assumption|]. intros k Hk. lia.
+  - destruct (is_ext c (S m)) eqn:E.
+    + exists (S m). split; [lia|]. split; [assumption|]. intros k Hk. lia.
+    + replace (m + S (S d)) with (S m + S d) in He by lia.
+      destruct (IH (S m) He) as [e [He1 [He2 He3]]].
+      exists e. split; [lia|]. split; [assumption|].
+      intros k Hk. destruct (Nat.eq_dec k (S m)) as [Heq|Hne]; [now subst k|]. apply He3. lia.
+Qed.
+
+Lemma nearest_ext_after c m p : m < p -> is_ext c p = true ->
+  exists e, m < e /\ is_ext c e = true /\ no_ext_between c m e.
+Proof.
+  intros Hlt Hx. apply (nearest_ext_after_aux c (p - m - 1) m).
+  replace (m + S (p - m - 1)) with p by lia. assumption.
+Qed.
+
+(* a decay midpoint cannot be directly followed by a rise midpoint *)
+Lemma domain_no_decay_rise c a0 a1 : cps_domain c -> a0 < a1 ->
+  is_ext c a0 = false -> is_decay c a0 = true -> is_ext c a1 = false -> is_rise c a1 = true ->
+  no_ext_between c a0 a1 -> False.
+Proof.
+  intros D Hlt NE0 D0 NE1 R1 Hne.
+  destruct (dom_peak c D) as [p [_ Pp]]. apply is_ext_peak in Pp.
+  destruct (dom_rise_flank c D a1 R1) as [RF1 RF2].
+  destruct (dom_decay_flank c D a0 D0) as [DF1 DF2].
+  assert (Hp : p < a0 \/ a1 < p).
+  { destruct (Nat.eq_dec p a0) as [Heq|Hn0]; [subst p; congruence|].
+    destruct (Nat.eq_dec p a1) as [Heq|Hn1]; [subst p; congruence|].
+    destruct (Nat.lt_ge_cases p a0) as [Hl|Hg]; [now left|].
+    destruct (Nat.lt_ge_cases a1 p) as [Hl|Hg']; [now right|].
+    assert (Hb : a0 < p < a1) by lia. specialize (Hne p Hb). congruence. }
+  destruct Hp as [Hp|Hp].
+  - destruct (nearest_ext_before c a0 (ex_intro _ p (conj Hp Pp))) as [e [He1 [He2 He3]]].
+    destruct (is_ext_inv c e He2) as [Pe|Te].
+    + apply (RF1 e); [lia|assumption|].
+      intros k Hk. destruct (Nat.lt_ge_cases k a0) as [Hl|Hg]; [apply He3; lia|].
+      destruct (Nat.eq_dec k a0) as [Heq|Hn]; [now subst k|]. apply Hne. lia.
+    + apply (DF1 e); assumption.
+  - destruct (nearest_ext_after c a1 p Hp Pp) as [e [He1 [He2 He3]]].
+    destruct (is_ext_inv c e He2) as [Pe|Te].
+    + apply (DF2 e); [lia|assumption|].
+      intros k Hk. destruct (Nat.lt_ge_cases a1 k) as [Hl|Hg]; [apply He3; lia|].
+      destruct (Nat.eq_dec k a1) as [Heq|Hn]; [now subst k|]. apply Hne. lia.
+    + apply (RF2 e); assumption.
+Qed.
+
+(* every consecutive pair of anchors advances the phase or wraps into a trough *)
+Lemma domain_adjacent_ok c a0 v0 a1 v1 : cps_domain c ->
+  adjacent (a0, v0) (a1, v1) (anchors (-2) c) -> (v0 < v1)%Z \/ (v1 = -2 /\ 0 <= v0)%Z.
+Proof.
+  intros D Hadj.
+  destruct (anchors_adjacent_gap _ _ _ _ _ _ Hadj) as [Hlt [Hn1 [Ha0 [Ha1 Hgap]]]].
+  assert (Hne : no_ext_between c a0 a1).
+  { intros k Hk. apply (anchor_none_inv (-2)%Z c k). now apply Hgap. }
+  assert (Hnr : forall k, a0 < k < a1 -> is_ext c k = true -> False).
+  { intros k Hk Hx. rewrite (Hne k Hk) in Hx. discriminate. }
+  destruct (anchor_some_cases c a0 v0 Ha0) as [[E0 T0]|[[E0 [NT0 P0]]|[[E0 [NE0 D0]]|[E0 [NE0 R0]]]]];
+  destruct (anchor_some_cases c a1 v1 Ha1) as [[E1 T1]|[[E1 [NT1 P1]]|[[E1 [NE1 D1]]|[E1 [NE1 R1]]]]];
+  subst v0 v1; first [left; lia | right; lia | exfalso].
+  - (* trough, trough *)
+    destruct (dom_alt_troughs c D a0 a1 Hlt T0 T1) as [k [Hk Pk]].
+    apply (Hnr k Hk). now apply is_ext_peak.
+  - (* peak, peak *)
+    destruct (dom_alt_peaks c D a0 a1 Hlt P0 P1) as [k [Hk Tk]].
+    apply (Hnr k Hk). now apply is_ext_trough.
+  - (* peak, rise *)
+    destruct (dom_rise_flank c D a1 R1) as [RF1 _]. now apply (RF1 a0).
+  - (* decay, peak *)
+    destruct (dom_decay_flank c D a0 D0) as [_ DF2]. now apply (DF2 a1).
+  - (* decay, decay *)
+    destruct (dom_one_decay c D a0 a1 Hlt D0 D1) as [k [Hk Xk]]. now apply (Hnr k Hk).
+  - (* decay, rise *)
+    now apply (domain_no_decay_rise c a0 a1).
+  - (* rise, trough *)
+    destruct (dom_rise_flank c D a0 R0) as [_ RF2]. now apply (RF2 a1).
+  - (* rise, rise *)
+    destruct (dom_one_rise c D a0 a1 Hlt R0 R1) as [k [Hk Xk]]. now apply (Hnr k Hk).
+Qed.
+
+Lemma two_in_length {A} (x y : A) l : In x l -> In y l -> x <> y -> 2 <= length l.
+Proof.
+  intros Hx Hy Hne. destruct l as [|a [|b l']]; cbn [length]; [destruct Hx| |lia].
+  destruct Hx as [Hx|[]]. destruct Hy as [Hy|[]]. congruence.
+Qed.
+
+(* (The "at least two samples apart" condition of the quantifier is not needed for wf_cps.) *)
+Theorem cps_domain_wf c : cps_domain c -> wf_cps c.
+Proof.
+  intro D. split.
+  - apply wf_anc_of_adjacent.
+    + apply anchors_sorted.
+    + intros a v Hin. now apply (anchors_range c a v).
+    + intros a0 v0 a1 v1 Hadj. now apply (domain_adjacent_ok c a0 v0 a1 v1).
+  - destruct (dom_peak c D) as [p [Hp Pp]]. destruct (dom_trough c D) as [t [Ht Tt]].
+    assert (NTp : mem p (c_troughs c) = false).
+    { destruct (mem p (c_troughs c)) eqn:E; [|reflexivity]. exfalso. exact (dom_disjoint c D p Pp E). }
+    apply (two_in_length (p, 0%Z) (t, (-2)%Z)).
+    + apply anchors_In. split; [assumption|]. now apply anchor_peak.
+    + apply anchors_In. split; [assumption|]. now apply anchor_trough.
+    + intro Heq. discriminate Heq.
+Qed.
+
+(* the class is inhabited: the example of wf_example *)
+Lemma ex_full_peak i : mem i (c_peaks ex_full) = true -> i = 6 \/ i = 14.
+Proof. intro H. apply mem_true_iff in H. cbn in H. lia. Qed.
+
+Lemma ex_full_trough i : mem i (c_troughs ex_full) = true -> i = 2 \/ i = 10.
+Proof. intro H. apply mem_true_iff in H. cbn in H. lia. Qed.
+
+Lemma ex_full_rise i : is_rise ex_full i = true -> i = 4 \/ i = 12.
+Proof.
+  unfold is_rise. intro H. apply andb_true_iff in H. destruct H as [H _].
+  change (mem i [4; 12] = true) in H. apply mem_true_iff in H. cbn in H. lia.
+Qed.
+
+Lemma ex_full_decay i : is_decay ex_full i = true -> i = 8.
+Proof.
+  unfold is_decay. intro H. apply andb_true_iff in H. destruct H as [H _].
+  change (mem i [8] = true) in H. apply mem_true_iff in H. cbn in H. lia.
+Qed.
+
+(* refute "no extremum between a and b" by exhibiting the extremum k of ex_full in between *)
+Ltac ex_between Hn k :=
+  let Hb := fresh "Hb" in
+  assert (Hb : is_ext ex_full k = false) by (apply Hn; lia); vm_compute in Hb; discriminate Hb.
+
+Example cps_domain_example : cps_domain ex_full.
+Proof.
+  constructor.
+  - exists 6. split; [cbn; lia|reflexivity].
+  - exists 2. split; [cbn; lia|reflexivity].
+  - intros i Hp Ht. apply ex_full_peak in Hp. apply ex_full_trough in Ht. lia.
+  - intros i j Hlt Hi Hj. apply ex_full_peak in Hi. apply ex_full_peak in Hj.
+    exists 10. split; [lia|reflexivity].
+  - intros i j Hlt Hi Hj. apply ex_full_trough in Hi. apply ex_full_trough in Hj.
+    exists 6. split; [lia|reflexivity].
+  - intros m Hm. apply ex_full_rise in Hm. split.
+    + intros e He Pe Hn. apply ex_full_peak in Pe.
+      assert (Hc : m = 12 /\ e = 6) by lia. destruct Hc as [Hm' He']. subst m e. ex_between Hn 10.
+    + intros e He Te Hn. apply ex_full_trough in Te.
+      assert (Hc : m = 4 /\ e = 10) by lia. destruct Hc as [Hm' He']. subst m e. ex_between Hn 6.
+  - intros m Hm. apply ex_full_decay in Hm. subst m. split.
+    + intros e He Te Hn. apply ex_full_trough in Te.
+      assert (He' : e = 2) by lia. subst e. ex_between Hn 6.
+    + intros e He Pe Hn. apply ex_full_peak in Pe.
+      assert (He' : e = 14) by lia. subst e. ex_between Hn 10.
+  - intros i j Hlt Hi Hj. apply ex_full_rise in Hi. apply ex_full_rise in Hj.
+    exists 6. split; [lia|reflexivity].
+  - intros i j Hlt Hi Hj. apply ex_full_decay in Hi. apply ex_full_decay in Hj. lia.
 Qed.
